@@ -755,7 +755,7 @@ func GenApp(t *rapid.T, o GenOpts) *app.App {
 		}
 	}
 	if o.CacheSize && g.chance(25, "hascachesize") {
-		total := 0
+		total, firsts := 0, 0
 		for _, sp := range a.Syms {
 			longest := 0
 			for _, r := range sp.Results {
@@ -764,8 +764,18 @@ func GenApp(t *rapid.T, o GenOpts) *app.App {
 				}
 			}
 			total += longest
+			if len(sp.Results) > 0 {
+				firsts += len(sp.Results[0].Content)
+			}
 		}
 		switch k := g.draw(10, "cachesizekind"); {
+		case k < 2 && total > firsts:
+			// room for every symbol's first result but not for every later one: a RELOAD can
+			// be refused for capacity while the value it would replace stays
+			a.Cfg.CacheSize = uint32(firsts + g.draw(total-firsts, "cachebetween"))
+			if a.Cfg.CacheSize == 0 {
+				a.Cfg.CacheSize = 1
+			}
 		case k < 6:
 			a.Cfg.CacheSize = uint32(total + rapid.IntRange(1, 100).Draw(t, "cacheslack"))
 		case k < 8:
